@@ -164,8 +164,8 @@ func (ctx *parseContext) expandSingleValueMacro(arg string) (string, error) {
 		}
 
 		var value string
-		if ctx.macros[macroName] != nil {
-			// Macros have at least one argument.
+		// A macro defined through an undefined macro has no arguments at all.
+		if len(ctx.macros[macroName]) != 0 {
 			value = ctx.macros[macroName][0]
 		}
 
